@@ -23,6 +23,9 @@ BOUNDS = {
                  "roundtrip": "scripts of <=4 commands", "truncation": "as quick plus 3-command scripts",
                  "varint": "as quick"},
 }
+BOUNDS_ADDED = 'a refused script (element over 520 bytes after 0..2 valid commands) followed by a valid one: the valid one serialises to its own bytes'
+for _t in ("quick", "thorough"):
+    BOUNDS[_t]["histories, lifetimes, injected faults, boundary vectors"] = BOUNDS_ADDED
 STUBS = ["io.BytesIO -> pure-Python reader over symbolic bytes (read(n) with symbolic n forks on min(n, remaining))"]
 ASSUMPTIONS = ["CPython semantics of int.to_bytes/from_bytes, slicing and list equality as modelled by the engine "
                "(validated on every run against native execution of the repository's test vectors)"]
